@@ -150,11 +150,11 @@ pub fn judge(family: &str, problem: &PProblem, cfg: &SolveCfg, scope: Scope) -> 
 /// Long runs: bigger problems, many generations, the default pipeline with 4 cpus (as the repository's feature tests run).
 pub fn long_scenarios(tier: Tier) -> Vec<(String, PProblem, SolveCfg)> {
     let mut out = vec![];
-    for p in family_line12() {
+    for (family, p) in family_line12().into_iter().map(|p| ("line12", p)).chain(family_mixed10().into_iter().map(|p| ("mixed10", p))) {
         for seed in 0..tier.pick(6u64, 64) {
             for generations in tier.pick(vec![300usize], vec![300, 1000]) {
                 out.push((
-                    "line12".to_string(),
+                    family.to_string(),
                     p.clone(),
                     SolveCfg { population: PopKind::Default, hyper: HyperKind::Dynamic, generations, seed: 100 + seed, cpus: 4, init_size: 4, ..SolveCfg::default() },
                 ));
@@ -249,7 +249,8 @@ pub fn replay(ctx: &RunCtx, scenario: &Value) -> Result<Vec<Violation>, String> 
     let found = [Tier::Quick, Tier::Thorough]
         .into_iter()
         .find_map(|t| problems_for(t, Scope::Accounting).into_iter().find(|(f, p)| f == family && p.name == name))
-        .or_else(|| family_line12().into_iter().find(|p| p.name == name).map(|p| ("line12".to_string(), p)));
+        .or_else(|| family_line12().into_iter().find(|p| p.name == name).map(|p| ("line12".to_string(), p)))
+        .or_else(|| family_mixed10().into_iter().find(|p| p.name == name).map(|p| ("mixed10".to_string(), p)));
     let (family, problem) = found.ok_or("problem not found in the families")?;
     Ok(judge(&family, &problem, &cfg, scope_of(&ctx.id)).violations)
 }
